@@ -976,3 +976,8 @@ MUTANTS["C11"] += [
     M("lines_membership_in_a_set_is_fine", CLI, '        kernel = [line for line in parsed_code if line.line_number in line_range]\n', "        wanted = set(line_range)\n        kernel = [line for line in parsed_code if line.line_number in wanted]\n", "SILENT", "same lines, file order"),
     M("lines_lookup_sorted_unique_is_fine", CLI, '        kernel = [line for line in parsed_code if line.line_number in line_range]\n', "        forms_by_number = {form.line_number: form for form in parsed_code}\n        kernel = [forms_by_number[n] for n in sorted(set(line_range)) if n in forms_by_number]\n", "SILENT", "sorted unique numbers = file order"),
 ]
+
+MUTANTS["C05"] += [
+    M("offset_assumes_contiguous_numbers", KDG, '        offset = max(1000, max([i.line_number for i in kernel]) + 1)\n', "        offset = max(1000, kernel[0].line_number + len(kernel))\n", "R2", "round 5 (C14 seed): blank lines leave gaps in the numbering"),
+    M("offset_from_last_line_is_fine", KDG, '        offset = max(1000, max([i.line_number for i in kernel]) + 1)\n', "        offset = max(1000, kernel[-1].line_number + 1)\n", "SILENT", "the kernel is in file order, its last line has the largest number"),
+]
